@@ -16,7 +16,7 @@ RULE = ("exhaustive: every profile over m <= 3 alternatives with <= 3 distinct b
         "profiles under the foreign type labels cat/wmd on a sample; random: m <= 8, <= 9 distinct ballots, "
         "multiplicities <= 50, tie-heavy generators (rotations with equal multiplicities, order + reverse, equal "
         "multiplicities, shared first choices, first-place majorities, single alternative, approval profiles with "
-        "forced equal satisfaction scores). histories (550 quick / 7000 thorough, ~10% of the random cases): ONE OrdinalInstance object filled through append_order / append_order_array / append_order_list / append_vote_map, every rule called, ballots repeating existing orders appended (only multiplicities move, majority flipped), rules called again on the same object, interleaved rule A / append / rule B / rule A; each answer judged against the model on the instance's current multiplicity table. non-trivial = >= 2 alternatives, >= 2 distinct ballots, some multiplicity > 1")
+        "forced equal satisfaction scores). histories (550 quick / 7000 thorough, ~10% of the random cases): ONE OrdinalInstance object filled through append_order / append_order_array / append_order_list / append_vote_map, every rule called, ballots repeating existing orders appended (only multiplicities move, majority flipped), rules called again on the same object, interleaved rule A / append / rule B / rule A; each answer judged against the model on the instance's current multiplicity table. call sequences (300 quick): a call that raises inside a decorated body (missing k, k=0, str k, empty instance, unexpected keyword; not judged) followed IN THE SAME PROCESS by every rule on out-of-domain / in-domain instances (judged: guards and winners); storage order (500 quick): instance.orders permuted in place and / or the multiplicity dict rebuilt in another key order with the same content, then every rule. non-trivial = >= 2 alternatives, >= 2 distinct ballots, some multiplicity > 1")
 EXHAUSTIVE = {"quick": "m<=3, n<=3 distinct ballots, multiplicities<=2, soc/soi/toc/toi, all 7 rules, k=1..m+2",
               "thorough": "m<=3, n<=3 distinct ballots, multiplicities<=2 (and m<=3, n<=2, multiplicities<=3), "
                           "soc/soi/toc/toi, all 7 rules, k=1..m+2"}
@@ -24,7 +24,7 @@ TRUSTED = ["modelled (mirror): singlewinner.py plurality/veto/k_approval/borda/c
            "satisfaction_approval winners, decorators.py, basic.py is_approval/is_complete/smallest_ballot, "
            "pairwisecomparisons.py borda_scores/copeland_scores; fractions.Fraction is modelled by Coq's Qc "
            "(normalised rationals)"]
-ASSUMPTIONS = ["instance.orders == list(instance.multiplicity) (parser / append_* invariant; C02)",
+ASSUMPTIONS = ["instance.orders and instance.multiplicity hold the same distinct orders (parser / append_* invariant; C02); their storage orders may differ (c06.perm cases)",
                "orders have at least one class and no empty class; alternatives of the ballots are listed in "
                "alternatives_name; multiplicities >= 1; num_alternatives and num_voters agree with the data",
                "k-approval: k is an int >= 1",
@@ -438,7 +438,13 @@ def gen_histories(rng, count):
     return out
 
 
+def _targets(c):
+    return c["payload"][2] if c["op"] == "c06.seq" else [c["payload"][0]]
+
+
 def oracle_requests(c, r):
+    if c["op"] in ("c06.seq", "c06.perm"):
+        return [("c06.all", [t, list(range(1, len(t[1]) + 3))]) for t in _targets(c)]
     if c["op"] != "c06.hist":
         return [(c["op"], c["payload"])]
     if not isinstance(r, list):
@@ -508,6 +514,108 @@ def shrink_history(c):
         elif not a[1]:
             for sel in _default_sel(3)[:6]:
                 yield dict(c, payload=acts[:i] + [[1, [sel]]] + acts[i + 1:])
+
+
+# ------------------------------------------------------------------------------------------------ call sequences
+# c06.seq: [kind, ip1, [target, ...]] — in ONE worker process: first a call that raises inside a decorated body
+# (its outcome is outside the property and is NOT judged), then every rule on fresh instances built from the targets
+# (mostly types outside the rules' domains: the R_guard theorems demand PreferenceIncompatibleError whatever
+# happened before).  c06.perm: [ip, perm_orders, perm_mult] — the public `orders` list permuted in place and / or the
+# `multiplicity` dict rebuilt with the same content in another key order, then every rule (the profile as a multiset
+# of ballots is unchanged, so R_spec / R_regroup give the same winners).
+FAIL_KINDS = ["k_approval without k", "k_approval k=0", "k_approval k>m", "plurality on an empty instance",
+              "k_approval with a str k", "borda on an empty instance", "copeland on an empty instance",
+              "approval on an empty instance", "veto with an unexpected keyword"]
+
+
+def failing_call(kind, ip):
+    from preflibtools.aggregation import singlewinner as W
+    from preflibtools.instances import OrdinalInstance
+    empty = OrdinalInstance()
+    empty.data_type = "soc"
+    try:
+        if kind == 0:
+            W.k_approval_winner(build(ip))
+        elif kind == 1:
+            W.k_approval_winner(build(ip), 0)
+        elif kind == 2:
+            W.k_approval_winner(build(ip), len(ip[1]) + 3)
+        elif kind == 3:
+            W.plurality_winner(empty)
+        elif kind == 4:
+            W.k_approval_winner(build(ip), "2")
+        elif kind == 5:
+            W.borda_winner(empty)
+        elif kind == 6:
+            W.copeland_winner(empty)
+        elif kind == 7:
+            W.approval_winner(empty)
+        else:
+            W.veto_winner(build(ip), weights=None)
+    except Exception:      # whatever this call does is outside the property; only the calls after it are judged
+        pass
+
+
+def all_rules(inst_builder, m):
+    from preflibtools.aggregation import singlewinner as W
+    fns = [W.plurality_winner, W.veto_winner, W.borda_winner, W.copeland_winner, W.approval_winner,
+           W.satisfaction_approval_winner]
+    res = [_win(f, inst_builder()) for f in fns]
+    for k in range(1, m + 3):
+        res.append(_win(W.k_approval_winner, inst_builder(), k))
+    return res
+
+
+def build_permuted(ip, po, pm):
+    inst = build(ip)
+    if po:
+        inst.orders[:] = [inst.orders[j] for j in po]          # in place: `preferences` stays the same list object
+    if pm:
+        items = list(inst.multiplicity.items())
+        inst.multiplicity = {items[j][0]: items[j][1] for j in pm}
+    return inst
+
+
+def gen_sequences(rng, count):
+    out = []
+    for _ in range(count):
+        m = rng.randint(2, 4)
+        alts = list(range(0, m)) if rng.random() < 0.2 else list(range(1, m + 1))
+        _, prof1 = tie_profile(rng, 0, alts)
+        ip1 = inst_payload(0, alts, prof1)
+        targets = []
+        for dt in rng.sample([1, 2, 3, 3, 0, 4, 5], rng.randint(2, 4)):      # mostly out-of-domain types
+            shape_dt = dt if dt <= 3 else rng.choice([0, 1, 2, 3])
+            _, prof = tie_profile(rng, shape_dt, alts)
+            targets.append(inst_payload(dt, alts, prof))
+        out.append(case("c06.seq", [rng.randrange(len(FAIL_KINDS)), ip1, targets], gen="sequence"))
+    return out
+
+
+def gen_permuted(rng, count):
+    out = []
+    while len(out) < count:
+        m = rng.randint(2, 6)
+        alts = list(range(0, m)) if rng.random() < 0.2 else list(range(1, m + 1))
+        dt = rng.choice([0, 0, 2, 2, 1, 3])
+        prof = []
+        for _ in range(rng.randint(2, 6)):
+            b = rand_ballot(rng, dt, alts)
+            if all(b != o for o, _ in prof):
+                prof.append((b, rng.choice([1, 2, 3, 5, 8, 13, rng.randint(1, 50)])))
+        ip = inst_payload(dt, alts, prof)
+        n = len(ip[4])
+        if n < 2:
+            continue
+        mode = rng.choice(["orders-reversed", "orders-shuffled", "multiplicity-rebuilt", "both"])
+        ident = list(range(n))
+        sh1, sh2 = ident[:], ident[:]
+        rng.shuffle(sh1)
+        rng.shuffle(sh2)
+        po = ident[::-1] if mode == "orders-reversed" else (sh1 if mode in ("orders-shuffled", "both") else [])
+        pm = sh2 if mode in ("multiplicity-rebuilt", "both") else []
+        out.append(case("c06.perm", [ip, po, pm], gen="storage-order " + mode))
+    return out
 
 
 BIG_MULTS = [2 ** 53 - 1, 2 ** 53, 2 ** 53 + 1, 2 ** 53 + 3, 2 ** 53 + 7, 2 ** 53 + 101, 2 ** 63 - 1, 2 ** 63 + 1,
@@ -588,6 +696,8 @@ def gen_big_ties(rng, count):
 def gen_random(tier, seed):
     out = exoticise(random.Random(1000003 * seed + 606), _gen_random(tier, seed))
     out.extend(gen_histories(random.Random(1000003 * seed + 6006), 550 if tier == "quick" else 7000))
+    out.extend(gen_sequences(random.Random(1000003 * seed + 60006), 300 if tier == "quick" else 3000))
+    out.extend(gen_permuted(random.Random(1000003 * seed + 600006), 500 if tier == "quick" else 6000))
     return out
 
 
@@ -648,6 +758,13 @@ def impl(c):
     op, pl = c["op"], c["payload"]
     if op == "c06.hist":
         return hist_run(pl, _call_rule, _default_sel)
+    if op == "c06.seq":
+        kind, ip1, targets = pl
+        failing_call(kind, ip1)
+        return [all_rules(lambda t=t: build(t), len(t[1])) for t in targets]
+    if op == "c06.perm":
+        ip, po, pm = pl
+        return [all_rules(lambda: build_permuted(ip, po, pm), len(ip[1]))]
     if op == "c06.all":
         ip, ks = pl
         res = []
@@ -692,6 +809,19 @@ def judge(c, r, mres):
     if c["op"] == "c06.hist":
         return judge_history(c, r, mres, RULES + ["kapp"], 6,
                              "R_spec / R_regroup of Properties/C06.v on the current multiplicity table")
+    if c["op"] in ("c06.seq", "c06.perm"):
+        ts = _targets(c)
+        if not isinstance(r, list) or len(r) != len(ts) or len(mres) != len(ts):
+            return {"kind": "broken-correspondence", "reason": "result arity"}
+        ctx = ("after the call '%s' in the same process, " % FAIL_KINDS[c["payload"][0]]) if c["op"] == "c06.seq" \
+            else ("with %s (same ballots and multiplicities), " % c["tags"].get("gen", "permuted storage order"))
+        for t, ri, mi in zip(ts, r, mres):
+            sub = {"op": "c06.all", "payload": [t, list(range(1, len(t[1]) + 3))], "tags": {}}
+            j = judge(sub, ri, [mi])
+            if j:
+                j["reason"] = ctx + j["reason"]
+                return j
+        return None
     m = mres[0]
     if c["op"] != "c06.all":
         r, m = [r], [m]
@@ -713,7 +843,9 @@ def judge(c, r, mres):
 
 def _prof(c):
     pl = c["payload"]
-    ip = pl[0] if c["op"] in ("c06.all", "c06.kapp") else pl
+    if c["op"] == "c06.seq":
+        return pl[2][0]
+    ip = pl[0] if c["op"] in ("c06.all", "c06.kapp", "c06.perm") else pl
     return ip
 
 
@@ -727,6 +859,17 @@ def nontrivial(c, r, m):
 def stats(c, r, m):
     if c["op"] == "c06.hist":
         return history_stats(c, r, m, RULES + ["kapp"], 6)
+    if c["op"] == "c06.seq":
+        out = ["sequence: first call = " + FAIL_KINDS[c["payload"][0]]]
+        for t, mi in zip(c["payload"][2], m):
+            ref = sum(1 for x in mi if x[0] == 1)
+            out.append("sequence: then every rule on a %s instance (%d of %d answers must be refusals)"
+                       % (DT[t[0]], ref, len(mi)))
+        return out
+    if c["op"] == "c06.perm":
+        ip = c["payload"][0]
+        return [c["tags"].get("gen", "storage-order"), "storage-order on type=%s" % DT[ip[0]],
+                "storage-order: multiplicities %s" % ("differ" if len({k for _, k in ip[4]}) > 1 else "all equal")]
     ip = _prof(c)
     out = ["type=%s" % DT[ip[0]], "m=%d" % len(ip[1]), "ballots=%s" % (len(ip[4]) if len(ip[4]) <= 3 else ">3")]
     if c["tags"].get("gen"):
@@ -789,6 +932,16 @@ def describe_history(c, names):
 def describe(c):
     if c["op"] == "c06.hist":
         return describe_history(c, RULES + ["kapp"])
+    if c["op"] == "c06.seq":
+        return {"op": c["op"], "first_call_not_judged": FAIL_KINDS[c["payload"][0]],
+                "then_every_rule_on": [{"data_type": DT[t[0]], "alternatives": t[1],
+                                        "ballots": [{"order": o, "multiplicity": k} for o, k in t[4]]}
+                                       for t in c["payload"][2]]}
+    if c["op"] == "c06.perm":
+        ip, po, pm = c["payload"]
+        return {"op": c["op"], "data_type": DT[ip[0]], "alternatives": ip[1],
+                "ballots": [{"order": o, "multiplicity": k} for o, k in ip[4]],
+                "instance.orders permuted in place to positions": po, "multiplicity dict rebuilt in key order": pm}
     ip = _prof(c)
     d = {"op": c["op"], "data_type": DT[ip[0]], "alternatives": ip[1],
          "ballots": [{"order": o, "multiplicity": k} for o, k in ip[4]]}
@@ -810,6 +963,18 @@ def _with_inst(c, ip):
 def shrink(c):
     if c["op"] == "c06.hist":
         yield from shrink_history(c)
+        return
+    if c["op"] == "c06.seq":
+        kind, ip1, ts = c["payload"]
+        if len(ts) > 1:
+            for t in ts:
+                yield dict(c, payload=[kind, ip1, [t]])
+        return
+    if c["op"] == "c06.perm":
+        ip, po, pm = c["payload"]
+        if po and pm:
+            yield dict(c, payload=[ip, po, []])
+            yield dict(c, payload=[ip, [], pm])
         return
     dt, alts, _, _, prof = _prof(c)
     # drop a ballot
